@@ -7,9 +7,11 @@
    For a table of ANY size the paging loop yields every row exactly once, in (key, raw) order (resp. the
    reverse order for reverse=True).  Needs: the (key, raw) pairs of the rows are pairwise distinct under the
    SQLite comparison (UNIQUE index: clause w_keys of the state invariant), no REAL-NaN key (clause w_wf) and
-   NO NULL KEY.  The last hypothesis is not part of the invariant and is needed: a NaN float key is bound as
-   NULL, the cursor predicate is never true against a NULL cursor and never selects a NULL row
-   (iterkeys_null_key_incomplete below).
+   NO NULL KEY (clause w_nonnull).  The last one is needed: the cursor predicate is never true against a NULL
+   cursor and never selects a NULL row (iterkeys_null_key_table_incomplete below).  It is part of the invariant
+   since the repair of finding C02-F2 / C03-F1 (Disk.put pickles a float NaN key instead of binding it, which
+   SQLite stored as NULL: DiskFacts.put_never_null), so every state reachable through the API has it
+   (iterkeys_reachable); the table-level statements (keys_ok) stay as the general form.
 
    Structure: the order on sqlvals and on (key, raw) pairs; bridge lemmas (the only place where the generated
    statements are unfolded); an abstract paging loop over a strict total order with an arbitrary positive page
@@ -438,23 +440,27 @@ Section Paging.
 End Paging.
 
 (* ================================================================== the table hypotheses *)
-Definition key_nonnull (v : sqlval) : bool := match v with SNull => false | _ => true end.
-
 (* what iterkeys needs of a table: rows pairwise distinct; (key, raw) unique under the SQLite comparison
    (UNIQUE index); no REAL NaN and no NULL key *)
 Definition keys_ok (t : list row) : Prop :=
   NoDup t /\ keys_unique t /\ (forall r, In r t -> sv_wf (rkey r) = true) /\ (forall r, In r t -> rkey r <> SNull).
 
-Lemma key_nonnull_spec v : key_nonnull v = true <-> v <> SNull.
-Proof. destruct v; cbn; split; congruence. Qed.
-
-Lemma winv_keys_ok s : Winv s -> forallb (fun r => key_nonnull (rkey r)) (rows s) = true -> keys_ok (rows s).
+(* every state satisfying the invariant has such a table *)
+Lemma winv_keys_ok s : Winv s -> keys_ok (rows s).
 Proof.
-  intros W N. repeat split.
+  intros W. repeat split.
   - apply rows_nodup, (w_rowids s W).
   - apply (w_keys s W).
   - apply (w_wf s W).
-  - intros r I. rewrite forallb_forall in N. apply key_nonnull_spec, N, I.
+  - intros r I. apply key_nonnull_spec, (w_nonnull s W), I.
+Qed.
+
+(* the boolean form of the last clause, for tables given explicitly *)
+Lemma keys_ok_of_forallb t :
+  NoDup t -> keys_unique t -> (forall r, In r t -> sv_wf (rkey r) = true) ->
+  forallb (fun r => key_nonnull (rkey r)) t = true -> keys_ok t.
+Proof.
+  intros N U W Nn. repeat split; auto. intros r I. rewrite forallb_forall in Nn. apply key_nonnull_spec, Nn, I.
 Qed.
 
 Section Rows.
@@ -568,14 +574,31 @@ Proof.
 Qed.
 
 Theorem iterkeys_all_rows s reverse :
-  Winv s -> forallb (fun r => key_nonnull (rkey r)) (rows s) = true ->
-  snd (op_iterkeys s reverse) = RKeys (keys_of (sql_order reverse iterkeys_order (rows s))).
-Proof. intros W N. rewrite (iterkeys_all_rows_table s reverse (winv_keys_ok s W N)). reflexivity. Qed.
+  Winv s -> snd (op_iterkeys s reverse) = RKeys (keys_of (sql_order reverse iterkeys_order (rows s))).
+Proof. intros W. rewrite (iterkeys_all_rows_table s reverse (winv_keys_ok s W)). reflexivity. Qed.
 
 Corollary iterkeys_sinv s reverse :
-  Sinv s -> forallb (fun r => key_nonnull (rkey r)) (rows s) = true ->
+  Sinv s -> op_iterkeys s reverse = (s, RKeys (keys_of (sql_order reverse iterkeys_order (rows s)))).
+Proof. intros [W _]. apply iterkeys_all_rows_table, winv_keys_ok; assumption. Qed.
+
+(* every state reachable from the empty cache through the API (any configuration, any history of calls other than
+   push, any clock and volume-oracle values): no hypothesis on the keys is left *)
+Corollary iterkeys_reachable c h reverse :
+  (forall x, In x h -> is_push (fst (fst x)) = false) ->
+  let s := run c init_st h in
   op_iterkeys s reverse = (s, RKeys (keys_of (sql_order reverse iterkeys_order (rows s)))).
-Proof. intros [W _] N. apply iterkeys_all_rows_table, winv_keys_ok; assumption. Qed.
+Proof. intros Np s. apply iterkeys_sinv. apply sinv_run_nopush, Np. Qed.
+
+Lemma sinv_no_null_key s : Sinv s -> forall r, In r (rows s) -> rkey r <> SNull.
+Proof. intros S r I. apply key_nonnull_spec. exact (w_nonnull s (proj1 S) r I). Qed.
+
+(* ... and no reachable state holds a NULL key *)
+Corollary reachable_no_null_key c h :
+  (forall x, In x h -> is_push (fst (fst x)) = false) ->
+  forall r, In r (rows (run c init_st h)) -> rkey r <> SNull.
+Proof.
+  intros Np r I. apply key_nonnull_spec. apply (w_nonnull _ (proj1 (sinv_run_nopush c h Np))), I.
+Qed.
 
 (* the result described without reference to the sort: a duplicate-free permutation of the (key, raw) pairs
    of the table, ascending (resp. descending) in the order klt *)
@@ -615,13 +638,13 @@ Proof.
   rewrite Forall_forall in *. intros y Iy. apply in_map_iff in Iy as [z [<- Iz]]. apply F, Iz.
 Qed.
 
-Corollary iterkeys_result s reverse :
-  Winv s -> forallb (fun r => key_nonnull (rkey r)) (rows s) = true ->
+Theorem iterkeys_result_table s reverse :
+  keys_ok (rows s) ->
   exists l, op_iterkeys s reverse = (s, RKeys l) /\
             Permutation l (keys_of (rows s)) /\ NoDup l /\ pairs_sorted reverse l /\
             length l = length (rows s).
 Proof.
-  intros W Nn. pose proof (winv_keys_ok s W Nn) as K.
+  intros K.
   exists (keys_of (sql_order reverse iterkeys_order (rows s))). split; [apply iterkeys_all_rows_table, K|].
   assert (P : Permutation (keys_of (sql_order reverse iterkeys_order (rows s))) (keys_of (rows s)))
     by (unfold keys_of; apply Permutation_map, sql_order_perm).
@@ -640,6 +663,21 @@ Proof.
   - rewrite (Permutation_length P). unfold keys_of. apply map_length.
 Qed.
 
+Corollary iterkeys_result s reverse :
+  Winv s ->
+  exists l, op_iterkeys s reverse = (s, RKeys l) /\
+            Permutation l (keys_of (rows s)) /\ NoDup l /\ pairs_sorted reverse l /\
+            length l = length (rows s).
+Proof. intros W. apply iterkeys_result_table, winv_keys_ok, W. Qed.
+
+Corollary iterkeys_result_reachable c h reverse :
+  (forall x, In x h -> is_push (fst (fst x)) = false) ->
+  let s := run c init_st h in
+  exists l, op_iterkeys s reverse = (s, RKeys l) /\
+            Permutation l (keys_of (rows s)) /\ NoDup l /\ pairs_sorted reverse l /\
+            length l = length (rows s).
+Proof. intros Np s. apply iterkeys_result. exact (proj1 (sinv_run_nopush c h Np)). Qed.
+
 (* ================================================================== examples *)
 (* the hypotheses are satisfiable by a non-trivial reachable state: int, float, text, bytes and pickled keys,
    1 and 1.0 being one key *)
@@ -655,14 +693,16 @@ Definition iterkeys_demo_hist : list (op * Z * list Z) :=
 Definition iterkeys_demo_st : st := run demo_cfg init_st iterkeys_demo_hist.
 
 Example iterkeys_demo_hyps :
-  Sinv iterkeys_demo_st /\ Winv iterkeys_demo_st /\
+  (forall x, In x iterkeys_demo_hist -> is_push (fst (fst x)) = false) /\
+  Sinv iterkeys_demo_st /\ Winv iterkeys_demo_st /\ keys_ok (rows iterkeys_demo_st) /\
   forallb (fun r => key_nonnull (rkey r)) (rows iterkeys_demo_st) = true /\
   length (rows iterkeys_demo_st) = 7%nat.
 Proof.
-  assert (S : Sinv iterkeys_demo_st).
-  { apply (sinv_run_nopush demo_cfg iterkeys_demo_hist).
-    intros x I. repeat (destruct I as [<-|I]; [reflexivity|]). destruct I. }
-  split; [exact S|]. split; [exact (proj1 S)|]. split; vm_compute; reflexivity.
+  assert (Np : forall x, In x iterkeys_demo_hist -> is_push (fst (fst x)) = false)
+    by (intros x I; repeat (destruct I as [<-|I]; [reflexivity|]); destruct I).
+  assert (S : Sinv iterkeys_demo_st) by (apply (sinv_run_nopush demo_cfg iterkeys_demo_hist), Np).
+  split; [exact Np|]. split; [exact S|]. split; [exact (proj1 S)|]. split; [apply winv_keys_ok; exact (proj1 S)|].
+  split; vm_compute; reflexivity.
 Qed.
 
 Example iterkeys_demo_result :
@@ -691,39 +731,60 @@ Example ploop_straddles_pages :
     = [5; 1; 7; 2; 4; 6].
 Proof. repeat split; vm_compute; reflexivity. Qed.
 
-(* NULL keys: float('nan') as a key is bound as NULL; every such set inserts a new row (NULL = NULL is not
-   true), the state invariant holds, and iterkeys stops after the first NULL row (ascending: the cursor
-   predicate against a NULL cursor is never true) resp. never reaches a NULL row (descending: key < ? is
-   never true on a NULL key).  So the non-NULL hypothesis of iterkeys_all_rows cannot be dropped. *)
+(* float('nan') keys.  Before the repair of finding C02-F2 / C03-F1 Disk.put bound a NaN key natively, SQLite
+   stored NULL, every such set inserted a new row (NULL = NULL is not true) and iterkeys stopped after the first
+   NULL row (ascending) resp. never reached one (descending): the witness history c[nan] = 1; c[7] = 2; c[nan] = 3
+   gave three rows with keys NULL, 7, NULL and the listings [NULL] / [7].  On the repaired put (the generated
+   decision tree, run here by vm_compute) the same history gives TWO rows -- the second NaN set replaces the
+   first, the key is the pickle of NaN with raw = 0 -- and iterkeys lists both keys, in either direction. *)
 Definition iterkeys_nan_hist : list (op * Z * list Z) :=
   [(OSet (VFloat FNaN) (VInt 1) false None SNull, 0, []);
    (OSet (VInt 7) (VInt 2) false None SNull, 1, []);
    (OSet (VFloat FNaN) (VInt 3) false None SNull, 2, [])].
 
-Example iterkeys_null_key_incomplete :
+Example iterkeys_nan_key_complete :
+  (forall x, In x iterkeys_nan_hist -> is_push (fst (fst x)) = false) /\
   let s := run demo_cfg init_st iterkeys_nan_hist in
-  Sinv s /\ keys_of (rows s) = [(SNull, true); (SInt 7, true); (SNull, true)] /\
+  Sinv s /\ keys_of (rows s) = [(SBlob (pkk demo_codec (VFloat FNaN)), false); (SInt 7, true)] /\
+  snd (op_iterkeys s false) = RKeys [(SInt 7, true); (SBlob (pkk demo_codec (VFloat FNaN)), false)] /\
+  snd (op_iterkeys s true) = RKeys [(SBlob (pkk demo_codec (VFloat FNaN)), false); (SInt 7, true)] /\
+  (forall reverse, snd (op_iterkeys s reverse) = RKeys (keys_of (sql_order reverse iterkeys_order (rows s)))) /\
+  (* the NaN entry is reached by key: it holds the value of the LAST set, and the decoded key is NaN again *)
+  snd (op_get demo_cfg s (VFloat FNaN) false 3) = RVal (FVal (VInt 3)) None SNull /\
+  snd (op_contains demo_cfg s (VFloat FNaN) 3) = RBool true /\
+  get demo_codec (SBlob (pkk demo_codec (VFloat FNaN))) false = Some (VFloat FNaN) /\
+  keys_of (rows (fst (op_delete demo_cfg s (VFloat FNaN) false 3))) = [(SInt 7, true)].
+Proof.
+  assert (Np : forall x, In x iterkeys_nan_hist -> is_push (fst (fst x)) = false)
+    by (intros x I; repeat (destruct I as [<-|I]; [reflexivity|]); destruct I).
+  split; [exact Np|]. cbv zeta. split; [apply sinv_run_nopush, Np|].
+  split; [vm_compute; reflexivity|]. split; [vm_compute; reflexivity|]. split; [vm_compute; reflexivity|].
+  split; [intros reverse; rewrite (iterkeys_reachable demo_cfg iterkeys_nan_hist reverse Np); reflexivity|].
+  repeat split; vm_compute; reflexivity.
+Qed.
+
+(* the non-NULL clause of keys_ok cannot be dropped from the table-level statement: on a table holding NULL keys
+   (what the released put left behind for NaN keys: the three rows of the old witness) iterkeys lists [NULL]
+   ascending and [7] descending.  Such a table is not reachable through the repaired API (reachable_no_null_key);
+   a directory written by released code can still hold such rows: they stay invisible to key lookups and are
+   removed by clear / expire / evict / cull like any other row *)
+Definition null_key_table : list row :=
+  [demo_row 1 SNull true; demo_row 2 (SInt 7) true; demo_row 3 SNull true].
+
+Example iterkeys_null_key_table_incomplete :
+  let s := set_rows init_st null_key_table 3 0 in
+  NoDup (rows s) /\ keys_unique (rows s) /\ (forall r, In r (rows s) -> sv_wf (rkey r) = true) /\
   snd (op_iterkeys s false) = RKeys [(SNull, true)] /\
   snd (op_iterkeys s true) = RKeys [(SInt 7, true)].
 Proof.
-  split; [|repeat split; vm_compute; reflexivity].
-  apply (sinv_run_nopush demo_cfg iterkeys_nan_hist).
-  intros x I. repeat (destruct I as [<-|I]; [reflexivity|]). destruct I.
-Qed.
-
-(* the full-strength statement (no hypothesis on NULL keys) is refuted by that history: a state reachable
-   from the empty cache by three `cache[key] = value` calls, satisfying Sinv, on which iterkeys does not list
-   the table (either direction) *)
-Theorem iterkeys_all_rows_refuted :
-  exists h, (forall x, In x h -> is_push (fst (fst x)) = false) /\
-    let s := run demo_cfg init_st h in
-    Sinv s /\ forall reverse, snd (op_iterkeys s reverse) <> RKeys (keys_of (sql_order reverse iterkeys_order (rows s))).
-Proof.
-  exists iterkeys_nan_hist.
-  assert (Np : forall x, In x iterkeys_nan_hist -> is_push (fst (fst x)) = false)
-    by (intros x I; repeat (destruct I as [<-|I]; [reflexivity|]); destruct I).
-  split; [exact Np|]. split; [apply sinv_run_nopush, Np|].
-  intros [|]; vm_compute; discriminate.
+  cbv zeta. split; [|split; [|split; [|split; vm_compute; reflexivity]]].
+  - change (rows (set_rows init_st null_key_table 3 0)) with null_key_table.
+    repeat constructor; cbn; intuition discriminate.
+  - change (rows (set_rows init_st null_key_table 3 0)) with null_key_table.
+    intros r r' I I' M. cbn in I, I'.
+    destruct I as [<-|[<-|[<-|[]]]]; destruct I' as [<-|[<-|[<-|[]]]]; try reflexivity; vm_compute in M; discriminate.
+  - change (rows (set_rows init_st null_key_table 3 0)) with null_key_table.
+    intros r I. cbn in I. destruct I as [<-|[<-|[<-|[]]]]; reflexivity.
 Qed.
 
 Print Assumptions sql_cmp_lt_trans.
@@ -736,5 +797,8 @@ Print Assumptions iterkeys_all_rows.
 Print Assumptions iterkeys_result.
 Print Assumptions iterkeys_sinv.
 Print Assumptions iterkeys_state.
-Print Assumptions iterkeys_null_key_incomplete.
-Print Assumptions iterkeys_all_rows_refuted.
+Print Assumptions iterkeys_reachable.
+Print Assumptions iterkeys_result_reachable.
+Print Assumptions reachable_no_null_key.
+Print Assumptions iterkeys_nan_key_complete.
+Print Assumptions iterkeys_null_key_table_incomplete.
